@@ -729,6 +729,45 @@ def judge_lines(ctx, cfg, inputs, aux):
             v.append({'what': 'differs-from-model', 'cfg': cfg, 'input': hx(e.encode()), 'expected': mo[0], 'actual': io[0], 'aux': aux, 'shrinkable': False})
     return v
 
+def judge_two_docs(ctx, cfg, svals):
+    """TWO documents through ONE Serializer (Serializer::new / with_formatter used as a sink for a stream of values): the formatter state is threaded from
+    the first to the second; model vs implementation, and directly: the second document must come out exactly as it does alone"""
+    rng = ctx.rng
+    L = ctx.letters(cfg)
+    pool = [s for s in svals if s[0] in ('seq', 'map', 'tuple', 'tstruct', 'struct', 'bytes', 'str', 'unit', 'tvar', 'svar', 'nvar', 'some')] or svals
+    empties = [('seq', 0, []), ('seq', None, []), ('map', 0, []), ('map', None, []), ('bytes', b''), ('tuple', []), ('struct', [])]
+    pairs = [(a, b) for a in pool[:40] for b in empties] + [(rng.choice(pool), rng.choice(pool + empties)) for _ in range(len(svals) // 4)]
+    tab = ftab_lookup(ctx, cfg, [floats_of(a) | floats_of(b) for a, b in pairs])
+    lines, singles = [], []
+    for a, b in pairs:
+        ft = ftab_field(tab, floats_of(a) | floats_of(b))
+        fmt = rng.choice(['c', 'p2020', 'p09', 'p'])
+        try:
+            ea, eb = enc(a), enc(b)
+        except Exception:
+            continue
+        lines.append('s2 %s %s %s %s %s' % (L, fmt, ft, ea, eb))
+        singles.append(('se %s %s %s %s' % (L, fmt, ft, ea), 'se %s %s %s %s' % (L, fmt, ft, eb)))
+    io, mo = ctx.both(cfg, lines, impl_name=IMPL, model_name='sjdriver_ser2')
+    ctx.quiet = True
+    alone = ctx.impl(cfg, [x for p in singles for x in p], IMPL)
+    ctx.quiet = False
+    v = []
+    for i, (line, a, m) in enumerate(zip(lines, io, mo)):
+        if a != m:
+            v.append({'what': 'two-documents-one-serializer-differs-from-model', 'cfg': cfg, 'input': hx(line.encode()), 'expected': 'model: ' + m[:300], 'actual': a[:300], 'shrinkable': False, 'case': line[:400]})
+            continue
+        a1, a2 = split_ans(alone[2 * i])[0].split(' '), split_ans(alone[2 * i + 1])[0].split(' ')
+        fa = a.split(' ')
+        if fa[0] == 'ok' and a1[0] == 'ok' and a2[0] == 'ok':
+            cat = ('' if a1[1] == '-' else a1[1]) + ('' if a2[1] == '-' else a2[1])
+            if (fa[1] if fa[1] != '-' else '') != cat:
+                v.append({'what': 'second-document-depends-on-the-first', 'cfg': cfg, 'input': hx(line.encode()), 'expected': 'the two documents as printed alone: ' + cat[:300], 'actual': a[:300], 'shrinkable': False, 'case': line[:400]})
+            elif not ctx.quiet:
+                ctx.distinct_nontrivial += 1
+    ctx.count('two-document-runs', len(lines))
+    return v
+
 def run_c03(ctx):
     ctx.rule = ('hand-picked call trees (nested empty containers, Some(0) hints, variants in maps, every key kind incl. all rejected ones, boundary integers of the '
                 '12 types, special floats) + random call trees over all 23 constructors (depth <= 4), each serialised compact, pretty (indent from 10 strings incl. '
@@ -746,11 +785,17 @@ def run_c03(ctx):
         for s in svals[::5]:
             ctx.count('root:' + s[0])
         ctx.violations += judge_se(ctx, cfg, svals)
+        ctx.violations += judge_two_docs(ctx, cfg, svals)
         docs = [gen.rand_top(ctx.rng, depth=ctx.rng.choice([1, 2, 3, 4]), floats=True) for _ in range(nd)]
         docs += [b'[]', b'{}', b'[[]]', b'[{}]', b'{"a":[]}', b'{"a":{}}', b'[[],[{}],{"":[]}]', b'""', b'"\\u0000\\u001f\\"\\\\\\/"', b'-0', b'-0.0', b'1e16', b'1E-7',
                  b'[1.0,1e300,5e-324]', b'{"b":1,"a":2,"b":3}', gen.nested('[' * 127, b''), gen.nested('[{' * 60, b'1')]
         ctx.sample({'op': 'sv', 'cfg': cfg, 'json_hex': hx(docs[0])})
         ctx.violations += judge_sv(ctx, cfg, docs)
+    for cfg in [c for c in getattr(ctx, 'side_cfgs', []) if c not in ctx.cfgs]:
+        # arbitrary_precision as a side configuration of the quick tier: call trees with Number literals (the private Number protocol, write_number_str)
+        svals = [s for s in sval_cases(ctx, cfg, 3000) if any(x[0] == 'numlit' for x in walk(s))][:800]
+        ctx.violations += judge_se(ctx, cfg, svals, tally=False)
+        ctx.violations += judge_wf(ctx, cfg, svals[:300])
 
 def extended_c03(ctx):
     for cfg in ctx.cfgs:
@@ -950,9 +995,11 @@ def judge_wf(ctx, cfg, svals):
 def run_c13_writer(ctx):
     """writer half of C13: called by the C13 check for each of its configurations"""
     n = 1500 if ctx.tier == 'quick' else 10000
-    for cfg in ctx.cfgs:
+    for cfg in list(ctx.cfgs) + [c for c in getattr(ctx, 'side_cfgs', []) if c not in ctx.cfgs]:
         rng = ctx.rng
         L = ctx.letters(cfg)
+        if cfg not in ctx.cfgs:
+            n = max(300, n // 5)          # side configuration (arbitrary_precision: Number literals go through Formatter::write_number_str)
         o_ok = Opts(bad_keys=False, numlit='a' in L)
         o_bad = Opts(bad_keys=True, numlit='a' in L)
         svals = [s for s in fixed_svals(o_bad)][::3] + [rand_sval(rng, rng.choice([1, 2, 3]), o_bad if i % 4 == 0 else o_ok) for i in range(n)]
@@ -967,5 +1014,5 @@ TRUSTED = ['ryu::Buffer::format_finite (external crate): its text is input data 
            'serde contract: length hints are None or exact; serialize_key precedes serialize_value',
            'literals of src/ser.rs hard-coded in Model/Ser.v, guarded by the shape check in tools/checks/ser.py']
 
-register('C03', cfgs={'quick': ['def', 'po'], 'thorough': list(engine.CONFIGS)}, run=run_c03, judge=judge_c03, extended=extended_c03, trusted_base=TRUSTED)
+register('C03', cfgs={'quick': ['def', 'po'], 'thorough': list(engine.CONFIGS)}, side_cfgs=['ap'], run=run_c03, judge=judge_c03, extended=extended_c03, trusted_base=TRUSTED)
 register('C15', cfgs={'quick': ['fr', 'po'], 'thorough': ['fr', 'po', 'ap']}, run=run_c15, judge=judge_c15, extended=extended_c15, trusted_base=TRUSTED)
